@@ -428,12 +428,28 @@ class StreamGen:
             if not self.dead and len(self.m.stack) > 6 and rng.random() < 0.7:
                 self.put(bytes([OP['Pop']]))
 
+    def big_memory_prelude(self):
+        """Fill the memory beyond 128 / towards 256 slots so that Load indices use the high bit."""
+        rng = self.rng
+        n = rng.choice([130, 140, 200, 254])
+        for i in range(n - len(self.m.memory)):
+            self.put(bytes([OP['CleanMetaVar'], i % 256, OP['Save'], OP['Pop']]))
+        # one proved entry high up, and loads of high slots
+        self.put(bytes([OP['Prop1'], OP['Save'], OP['Pop']]))
+        top = len(self.m.memory) - 1
+        for idx in (top, top - 1, 128 if top >= 128 else 0, 127):
+            if 0 <= idx <= top and idx < 256:
+                self.put(bytes([OP['Load'], idx, OP['Pop']]))
+        self.put(bytes([OP['Load'], min(255, top + 1)]) if rng.random() < 0.3 else b'')
+
     def build(self):
         rng = self.rng
         self.gamma()
         self.m.next_phase()
         self.claim_prelude()
         self.m.next_phase()
+        if rng.random() < 0.03:
+            self.big_memory_prelude()
         self.proof_ops()
         # claim stream: prelude + the theorems published, in reverse order of publication
         claim = bytearray(self.bufs[1])
